@@ -101,7 +101,7 @@ def run(ctx, chk):
                         "a silent terminal hangs the call" % (detail, root, [(c[0].rsplit("::", 1)[-1], c[2]) for c in callers]),
                         "raw await, but every caller wraps %s in tokio::time::timeout" % root.rsplit("::", 1)[-1], sp,
                         key="C10-a/await-bounded|%s|%s" % (root, detail))
-    chk.floor("await points classified", n_await, 29)
+    chk.floor("await points classified", n_await, 20)
     budgets(chk, crate)
     overflow(chk, crate)
 
